@@ -645,6 +645,14 @@ impl PageLoad {
     }
 }
 
+#[cfg(nomt_verif)]
+impl PageLoad {
+    /// Verification hook: the bucket the probe sequence stands at.
+    pub fn verif_bucket(&self) -> u64 {
+        self.probe_sequence.bucket()
+    }
+}
+
 /// Describes the utilization of buckets in the hash-table at a point in time.
 #[derive(Debug, Clone, Copy, PartialEq)]
 pub struct HashTableUtilization {
@@ -1155,5 +1163,103 @@ impl ProbeSequence {
 
     fn bucket(&self) -> u64 {
         self.bucket
+    }
+}
+
+/// Verification hook: a bitbox `DB` with a hand-built meta map (pages placed by the real
+/// `allocate_bucket`, buckets freed by `set_tombstone`), of which only the [`PageLoader`] is used:
+/// the reads it submits are answered by the caller (`io::verif_scripted`).
+#[cfg(nomt_verif)]
+pub mod verif_table {
+    use super::{
+        allocate_bucket, hash_page_id, HTOffsets, MetaMap, PageId, PageLoader, ProbeResult,
+        ProbeSequence, WalBlobBuilder, DB,
+    };
+    use crate::io::{PagePool, PAGE_SIZE};
+    use parking_lot::{Mutex, RwLock};
+    use std::os::fd::AsRawFd;
+    use std::sync::{atomic::AtomicUsize, Arc};
+    use threadpool::ThreadPool;
+
+    pub struct TableSim {
+        db: DB,
+    }
+
+    impl TableSim {
+        pub fn new(num_pages: u32, seed: [u8; 16], page_pool: PagePool) -> anyhow::Result<Self> {
+            let meta_pages = (num_pages as usize + 4095) / 4096;
+            let meta_map = MetaMap::from_bytes(vec![0u8; meta_pages * 4096], num_pages as usize);
+            let capacity = meta_map.len();
+            let null = || std::fs::OpenOptions::new().read(true).write(true).open("/dev/null");
+            let shared = super::Shared {
+                page_pool,
+                store: HTOffsets::verif_new(num_pages),
+                seed,
+                meta_map: Arc::new(RwLock::new(meta_map)),
+                wal_blob_builder: Arc::new(Mutex::new(WalBlobBuilder::verif_with_initial_size(
+                    PAGE_SIZE,
+                )?)),
+                occupied_buckets: AtomicUsize::new(0),
+                wal_fd: null()?,
+                ht_fd: null()?,
+                sync_tp: ThreadPool::with_name("bitbox-sync-verif".into(), 1),
+                capacity,
+            };
+            Ok(TableSim {
+                db: DB {
+                    shared: Arc::new(shared),
+                },
+            })
+        }
+
+        /// `allocate_bucket` for the page (must not be called once a loader exists: the loader
+        /// holds the read lock of the meta map for its whole life).
+        pub fn insert(&self, page_id: &PageId) -> Option<u64> {
+            let mut meta_map = self.db.shared.meta_map.write();
+            allocate_bucket(page_id, &mut meta_map, &self.db.shared.seed).map(|b| b.0)
+        }
+
+        /// The bucket becomes a tombstone.
+        pub fn remove(&self, bucket: u64) {
+            self.db.shared.meta_map.write().set_tombstone(bucket as usize);
+        }
+
+        /// Do the two pages start their probe sequences at the same bucket with the same tag?
+        pub fn same_slot(&self, a: &PageId, b: &PageId) -> bool {
+            let n = self.db.shared.meta_map.read().len() as u64;
+            let ha = hash_page_id(a, &self.db.shared.seed);
+            let hb = hash_page_id(b, &self.db.shared.seed);
+            ha % n == hb % n && ha >> 57 == hb >> 57
+        }
+
+        /// The buckets `PageLoader::probe` reads for this page one after the other as long as
+        /// `try_complete` refuses them, and whether the sequence ends in `false` (empty bucket or
+        /// exhaustion: always, unless it is cut at `limit`).
+        pub fn possible_hits(&self, page_id: &PageId, limit: usize) -> Vec<u64> {
+            let meta_map = self.db.shared.meta_map.read();
+            let mut seq = ProbeSequence::new(page_id, &meta_map, &self.db.shared.seed);
+            let mut out = Vec::new();
+            while out.len() < limit {
+                match seq.next(&meta_map) {
+                    ProbeResult::Tombstone(_) => continue,
+                    ProbeResult::Empty(_) | ProbeResult::Exhausted => break,
+                    ProbeResult::PossibleHit(b) => out.push(b),
+                }
+            }
+            out
+        }
+
+        pub fn loader(&self) -> PageLoader {
+            PageLoader::new(&self.db)
+        }
+
+        pub fn ht_fd(&self) -> i32 {
+            self.db.shared.ht_fd.as_raw_fd()
+        }
+
+        /// page number in the HT file → bucket
+        pub fn bucket_of_page_number(&self, pn: u64) -> u64 {
+            pn - self.db.shared.store.data_page_index(0)
+        }
     }
 }
